@@ -74,7 +74,7 @@ def hostile(rng, n):
     return out, kind
 
 
-def check_state(typ, kv, xs, ws, ys, res, c, variant, ctx):
+def check_state(typ, kv, xs, ws, ys, res, c, variant, ctx, merged=False):
     """xs: contributing observations of this state (span).  ws: weights or None; ys: second coordinate or None."""
     n = len(xs)
     res.count('evaluations')
@@ -98,7 +98,7 @@ def check_state(typ, kv, xs, ws, ys, res, c, variant, ctx):
         elif v == 0.0 and len(set(xs)) > 1:
             res.count('variance_underflowed_to_zero')
 
-    def range_check(name, lo, hi, M, what):
+    def range_check(name, lo, hi, M, what, underflow_class=False):
         v = val(kv[name])
         res.count('range_checks')
         if v is PANIC or v != v or v in (math.inf, -math.inf):
@@ -108,7 +108,7 @@ def check_state(typ, kv, xs, ws, ys, res, c, variant, ctx):
         tol = 8 * n * U * M + 4 * n * DENORM
         fv = Fraction(v)
         if fv < Fraction(lo) - tol or fv > Fraction(hi) + tol:
-            res.violation(PROP, '%s.%s:out-of-range' % (typ, name),
+            res.violation(PROP, '%s.%s:out-of-range%s' % (typ, name, ':merge:subnormal-products' if underflow_class else ''),
                           '%s.%s() = %s lies outside [%r, %r] +- 8nu*max|x| of the %s (n=%d) %s' % (
                               typ, name, common.show(kv[name]), lo, hi, what, n, ctx), c, variant)
 
@@ -122,7 +122,11 @@ def check_state(typ, kv, xs, ws, ys, res, c, variant, ctx):
         contrib = [x for x, w in zip(xs, ws) if w > 0]
         if contrib:
             name = 'mean' if typ == 'WeightedMean' else 'weighted_mean'
-            range_check(name, min(contrib), max(contrib), Fraction(max(abs(x) for x in contrib)), 'observations with positive weight')
+            # class of the recorded known finding: the state is the result of a merge and every product
+            # weight_sum * mean that WeightedMean::merge forms is subnormal (sum w * max|x| < 2^-1022)
+            Mc = Fraction(max(abs(x) for x in contrib))
+            uf = merged and Fraction(sum(ws)) * Mc < Fraction(1, 2 ** 1022)
+            range_check(name, min(contrib), max(contrib), Mc, 'observations with positive weight', underflow_class=uf)
             res.count('weighted_range_checks')
             if typ == 'WeightedMeanWithError':
                 v = val(kv['effective_len'])
@@ -240,7 +244,7 @@ def shard(desc):
             if r is None or hi <= lo:
                 continue
             check_state(typ, r.kv, xs[lo:hi], ws[lo:hi] if ws else None, ys[lo:hi] if ys else None, res, c, variant,
-                        '(%s data, items %d..%d)' % (kind, lo, hi))
+                        '(%s data, items %d..%d)' % (kind, lo, hi), merged='tree' in c.meta)
         res.count('cases')
         if len(set(xs)) >= 2:
             res.distinct.add(c.key())
@@ -270,11 +274,34 @@ def shard(desc):
     return res
 
 
+def witness(binary, variant):
+    """Deterministic witness of the recorded known finding (known_findings.txt): merging two weighted means of
+    subnormal data forms weight_sum * mean products that underflow to zero."""
+    res = Result()
+    cases = []
+    for typ in ('WeightedMean', 'WeightedMeanWithError'):
+        c = Case('witness-%s' % typ, typ, meta={'kind': 'denormal', 'tree': 'witness', 'sizes': [1, 1]})
+        c.op('N', 0)
+        c.op('A', 0, [5e-321, 1e-6])
+        c.op('N', 1)
+        c.op('A', 1, [5e-321, 1e-6])
+        c.op('M', 0, 1)
+        c.op('O', 0)
+        cases.append(c)
+    logs = run_driver(binary, ''.join(c.text() for c in cases))
+    for c in cases:
+        o = [r for r in logs[c.id] if r.kind == 'o'][0]
+        check_state(c.type, o.kv, [5e-321, 5e-321], [1e-6, 1e-6], None, res, c, variant,
+                    '(witness: two singletons (5e-321, w=1e-6) merged)', merged=True)
+        res.count('witness_cases')
+    return res
+
+
 def run(tier, seed):
     t0 = time.time()
     total = Result()
     if tier == 'quick':
-        nseq, nhist, variants, mult = 2400, 800, [('release', 1.0), ('dev', 0.3)], 1
+        nseq, nhist, variants, mult = 4800, 1600, [('release', 1.0), ('dev', 0.3)], 1
     else:
         nseq, nhist, variants, mult = 120000, 40000, [('release', 1.0), ('dev', 0.2), ('std', 0.1)], 8
     try:
@@ -285,6 +312,7 @@ def run(tier, seed):
                       'nseq': max(1, int(nseq * frac) // nsh), 'nhist': max(1, int(nhist * frac) // nsh),
                       'seed': seed * 1000003 + s * 7919 + sum(map(ord, variant))} for s in range(nsh)]
             total.merge(common.run_shards(shard, descs))
+            total.merge(witness(binary, variant))
     except common.Inconclusive as e:
         total.inconclusive.append(str(e))
     need = {'sign_checks': 20000, 'range_checks': 20000, 'merge_histories': 1000, 'effective_len_checks': 500,
@@ -311,4 +339,5 @@ def rejudge(case, recs, res, variant, v):
             ys = second if case.type == 'Covariance' else None
         else:
             xs, ws, ys = items, None, None
-        check_state(case.type, r.kv, xs, ws, ys, res, case, variant, '(replay, op %d)' % r.op)
+        check_state(case.type, r.kv, xs, ws, ys, res, case, variant, '(replay, op %d)' % r.op,
+                    merged=any(o.startswith('M ') for o in case.ops[:r.op]))
